@@ -121,7 +121,7 @@ def run(ctx):
                 "iterator with a random limit); the numbers must equal the model's `chunkVals`. Plus the 8 shipped assets through "
                 "both decoders. non-trivial = tree with >1 code, run block, divisor >1, legacy flag or delta")
     reqs, info = [], []
-    for i in range(700 if ctx.quick else 8000):
+    for i in range(3000 if ctx.quick else 30000):
         dt = S.ALL_DT[i % 15]
         fl = (rng.below(2), rng.choice([0, 0, 1, 2, 7, rng.range(0, 7)]), rng.below(2), rng.below(2))
         chunks = [gen_chunk(rng, dt, fl, ctx.quick) for _ in range(rng.choice([1, 1, 2, 3]))]
